@@ -14,7 +14,7 @@ CHECKS = {
         "text": "TLC checks exclusivity, monotonicity and placement-independence of the version gates on the pragma-scan machine for every version triple in 0.0.0..2.12.40, operator spelling and header shape; every generated header is rendered and replayed into the four real detectors and the real version extraction; corpus programs under sampled versions are validated by the TV_C09 trace specification.",
         "design_ref": "section 7 C09",
         "note": "Exhaustive over the stated box of versions (quick: all versions bare, boundary versions for all spellings); fixed file body; trusts TLC and solang-parser.",
-        "technique": "TLA+ spec (Version.tla) + TLC exhaustive enumeration + replay into real code + TLC trace validation",
+        "technique": "TLA+ spec (Version.tla, VersionGates.tla) + TLC exhaustive enumeration + replay into real code + TLC trace validation; gate lemmas for all naturals proved with TLAPS (VersionProofs.tla)",
     },
     "C02": {
         "text": "TLC checks the offset->line Scan machine against the declarative LineOf on every small text and token-start offset, and the Emit layout machine against LineOf on every gap pattern; texts/offsets are replayed into get_line_number; corpus programs re-laid out with stress layouts and TLC-generated gap patterns are analysed by all 30 detectors and validated by the TV_C02 trace specification.",
@@ -62,7 +62,7 @@ CHECKS = {
         "text": "TLC checks the option-resolution machine (abort-iff, abort-before-write, directory precedence) over a family of inputs built from the catalogue of documented names extracted from /repo at check time; the real binary is run on every input in a scratch cwd with three identifiable witness directories that trigger all 30 patterns; exit status, report presence, directory identity and sections read back are validated by TV_Config; the name tables are checked for injectivity and coverage of the defaults.",
         "design_ref": "section 7 C14",
         "note": "Catalogue = first column of docs/identified-*.md plus the lists of Solstat.toml as found at check time; selection is observed through report sections, so the witness contracts must make every pattern fire.",
-        "technique": "TLA+ spec (Config.tla) + TLC-generated inputs run through the real binary + TLC trace validation",
+        "technique": "TLA+ specs (Config.tla; Solstat.tla = the whole run as one machine) + TLC model checking + TLC-generated inputs run through the real binary + TLC trace validation (TV_Config, TV_Solstat)",
     },
     "C15": {
         "text": "TLC enumerates every Begin/End interleaving of a caller with 2-3 threads; each schedule is enforced on real threads calling the real analyze_for_* with overlapping computations, all ordered detector pairs are run sequentially, random directory trees vary siblings, position and co-selected patterns; every result is validated by TV_Calls / TV_DirWalk against the baseline of the same call made alone in a fresh process.",
